@@ -334,6 +334,7 @@ pub fn quick_runs(property: &str) -> u64 {
         "C04" => 8000,
         "C05" => 3000,
         "C09" | "C10" => 2500,
+        "C15" => 1500,
         "C13" => 1500,
         "C14" => 8000,
         _ => 4000,
@@ -643,6 +644,7 @@ pub fn meta_for(property: &str) -> CheckMeta {
         "C08" => "plan = f(seed): loss incl. ACK-only blackouts, reordering, duplication, delay; non-trivial = a fault fired and an ACK with gaps was sent or a packet was declared lost; distinct = event-order hash",
         "C11" => "plan = f(seed): certificate blobs up to 16 KB (server first flight far above 3x the client's Initial), handshake loss/duplication/delay, Retry on/off, up to 3 clients, and up to 40 unattributable datagrams (garbage, short header with unknown id, unknown version, Version Negotiation, version 0; sizes 1..1500) from a third address; non-trivial = certificate >= 3000 bytes and the handshake progressed, or an unattributable datagram was answered; distinct = event-order hash",
         "C09" | "C10" => "END-TO-END PART (the component part runs in linksim): plan = f(seed): bulk transfers (up to 3 MiB) over lossy/reordering/duplicating links with total outages of 50 ms - 10 s, both congestion controllers; a shadow of RFC 9002 built from the endpoint's own events (packet_sent, ack_range_received, packet_lost, key_space_discarded, recovery_metrics, congestion, mtu_updated) and the cleartext of what it sent: C09 - every loss has a later acknowledged packet and meets the packet or time threshold (judged with the RTT estimate before and after), no packet resolved twice, recovery_metrics.bytes_in_flight equals the unresolved congestion-controlled packets at every metrics event, smoothed/min RTT inside the samples, consecutive PTO expiries at least base x 2^k apart; C10 - congestion window never below the controller's minimum and no normal-mode congestion-controlled packet leaves with bytes_in_flight >= window (PTO probes, MTU probes, CONNECTION_CLOSE and the one packet when entering recovery exempt); non-trivial = a fault fired, the application made progress and a loss / PTO>=3 / congestion event occurred; distinct = event-order hash",
+        "C15" => "END-TO-END PART (the component part runs in linksim): plan = f(seed): transfers of 1-4 MiB with the sim-TLS wrapper key reporting a confidentiality limit of 10 000 + T packets (T = 100..1500, so the transport starts an update every T packets) and an integrity limit of 2..100, loss/duplication/reordering/corruption/forgery up to 15 %; the wrapper tags every ciphertext with its key generation and logs every use: no generation protects more packets than its limit, generation monotone in packet number, AEAD_LIMIT_REACHED exactly when the failed authentications reach the integrity limit, and the data (C01) and liveness (C02) oracles hold on the same history (both sides keep decrypting across updates); non-trivial = at least 4 key updates and application progress; distinct = event-order hash",
         "C13" => "plan = f(seed): 1-3 long-lived connections (up to 260 s virtual) with keep-alive, connection-id lifetimes 60-120 s or none, handshake-id rotation on/off, active_connection_id_limit 2-8 on both sides, 0-5 NAT rebindings of each client at seeded times, loss/duplication/reordering up to 15 %; oracles over the recorded frames, datagram heads and endpoint events: consecutive sequence numbers, distinct ids and reset tokens (per connection and per endpoint), retire_prior_to <= seq, active ids <= peer limit at every issuance, RETIRE only of ids the peer issued and never inside a packet addressed to that id, datagrams for unretired ids of live connections neither handed to another connection nor treated as unroutable; non-trivial = NEW_CONNECTION_ID was sent and (an id was retired or a fault fired); distinct = event-order hash",
         "C14" => "REDUCED CLAIM (the pure decode table over all blocks is input enumeration): the rule catalogue (every numeric parameter at/around its bound, duplicates, removals, unknown and GREASE ids, server-only parameters in a client block, wrong/missing connection-id parameters, malformed encodings, truncations, reordering; ~120 rules per role) is enumerated completely by seed (fault_enumeration), alone and combined with an unknown parameter plus reordering, under random workloads and Retry on/off; expected verdict from an RFC 9000 7.3/7.4/18.2 table in /verif evaluated on the block as received; then the C03 credit monitor and a datagram-size monitor check that the declared values are the ones applied; non-trivial = the rewritten block reached the peer; distinct = event-order hash",
         "C12" => "plan = f(seed): send/finish/reset/stop_sending/close in all orders, hard application close, loss up to 30 %; non-trivial = RESET_STREAM/STOP_SENDING/CONNECTION_CLOSE was sent and a fault fired or a packet was lost; distinct = event-order hash",
